@@ -40,6 +40,7 @@ type lessWalker struct {
 	cls   map[string]valClass // VN of operand -> class
 	modes map[string]bool
 	steps int
+	num   bool // a numerical comparison was passed on the current path
 	// evaluation of a package predicate called by the comparison function (tol_U4.go): the walker of the callee
 	depth    int
 	onReturn func(ret *ssa.Return, from *ssa.BasicBlock)
@@ -133,6 +134,12 @@ func (w *lessWalker) modeOf(v ssa.Value, from *ssa.BasicBlock) string {
 		}
 	}
 	bo, ok := v.(*ssa.BinOp)
+	if ok {
+		// a.Cmp(b) < 0 on math/big numbers: exact
+		if c, isCall := bo.X.(*ssa.Call); isCall && c.Common().StaticCallee() != nil && c.Common().StaticCallee().Name() == "Cmp" && c.Common().StaticCallee().Pkg != nil && c.Common().StaticCallee().Pkg.Pkg.Path() == "math/big" {
+			return "exact"
+		}
+	}
 	if ok && (bo.Op == token.LSS || bo.Op == token.GTR || bo.Op == token.LEQ || bo.Op == token.GEQ) {
 		if bt, ok := bo.X.Type().Underlying().(*types.Basic); ok {
 			switch {
@@ -149,6 +156,9 @@ func (w *lessWalker) modeOf(v ssa.Value, from *ssa.BasicBlock) string {
 	case triT, triF:
 		return "class"
 	}
+	if _, _, isNil := condIsNilTest(v); isNil {
+		return "nil-test" // `bi == nil`: a number without a value (NaN) is put first
+	}
 	if c, ok := v.(*ssa.Call); ok && c.Common().StaticCallee() != nil && strings.HasPrefix(c.Common().StaticCallee().Name(), "Is") {
 		return "class"
 	}
@@ -163,6 +173,24 @@ func (w *lessWalker) walk(b, from *ssa.BasicBlock, seen map[*ssa.BasicBlock]int)
 	}
 	seen[b]++
 	defer func() { seen[b]-- }()
+	// a numerical comparison on the way (an exact Cmp of math/big numbers): what follows it on this path breaks ties
+	// between numerically equal values
+	prevNum := w.num
+	defer func() { w.num = prevNum }()
+	for _, in := range b.Instrs {
+		if c, ok := in.(*ssa.Call); ok && c.Common().StaticCallee() != nil && c.Common().StaticCallee().Name() == "Cmp" && c.Common().StaticCallee().Pkg != nil && c.Common().StaticCallee().Pkg.Pkg.Path() == "math/big" {
+			w.num = true
+		}
+		// … or the operands were turned into exact numbers (a call that yields a math/big number): between two
+		// numbers that have none (NaN) the text decides
+		if c, ok := in.(*ssa.Call); ok {
+			if pt, isP := c.Type().(*types.Pointer); isP {
+				if nt, isN := pt.Elem().(*types.Named); isN && nt.Obj().Pkg() != nil && nt.Obj().Pkg().Path() == "math/big" {
+					w.num = true
+				}
+			}
+		}
+	}
 	switch t := b.Instrs[len(b.Instrs)-1].(type) {
 	case *ssa.If:
 		switch w.eval(t.Cond, from) {
@@ -180,7 +208,11 @@ func (w *lessWalker) walk(b, from *ssa.BasicBlock, seen map[*ssa.BasicBlock]int)
 		if w.onReturn != nil {
 			w.onReturn(t, from)
 		} else if len(t.Results) == 1 {
-			w.modes[w.modeOf(t.Results[0], from)] = true
+			m := w.modeOf(t.Results[0], from)
+			if m == "text" && w.num {
+				m = "tie-break"
+			}
+			w.modes[m] = true
 		}
 	}
 }
@@ -254,8 +286,19 @@ func ruleC09SortTotal(p *Prog, a *Anchors, r *Report) {
 		// an integer next to a float: numerically
 		key := p.FuncName(f) + ":mixed-numbers"
 		m1, m2 := modesOf(clsInt, clsFloat), modesOf(clsFloat, clsInt)
-		if only(m1, "float") && only(m2, "float") {
-			r.OK(key, p.Pos(cmp.Pos()), "an integer and a float are compared by the float <")
+		has := func(ms []string, m string) bool {
+			for _, x := range ms {
+				if x == m {
+					return true
+				}
+			}
+			return false
+		}
+		numeric := func(ms []string) bool {
+			return (has(ms, "float") || has(ms, "exact")) && only(ms, "float", "exact", "tie-break", "nil-test")
+		}
+		if numeric(m1) && numeric(m2) {
+			r.OK(key, p.Pos(cmp.Pos()), "an integer and a float are compared numerically (%v)", m1)
 		} else {
 			r.Bad(key, p.Pos(cmp.Pos()), "an integer next to a float is not compared numerically (integer/float: %v, float/integer: %v) while two integers and two floats are: 10 sorts before 2.5 and after 3 — the ordering has cycles, so the result of `sorted` and the iteration order of a map depend on the order of arrival", m1, m2)
 		}
